@@ -312,6 +312,10 @@ def run_judge(
     t0 = time.time()
     for ja in jobs_args:
         path, rc, out, err, dt = _judge_batch(ja)
+        if rc in (-9, 137):
+            # the JVM was killed from outside (memory pressure when several checks share the machine): once more, a little later
+            time.sleep(30)
+            path, rc, out, err, dt = _judge_batch(ja)
         if 'Model checking completed. No error has been found.' not in out:
             lines = out.strip().split('\n')
             key = [l for l in lines if l.startswith(('Error:', 'Reason', 'Attempted', 'The exception', 'Failed'))][:8]
